@@ -183,17 +183,32 @@ func TestC05StoreBeforeAck(t *testing.T) {
 						last1 = e
 						expectForward, fwdPayload = true, e.payload
 					case strings.HasPrefix(ev, "pub2"):
-						if strings.Contains(ev, "repeat") {
-							if last2 == nil {
-								return
+						pendingSame := false
+						if last2 != nil {
+							for _, h := range handshakes {
+								if h.ev.id == last2.id && h.pending && time.Now().Before(h.deadline.Add(-500*time.Millisecond)) {
+									pendingSame = true
+								}
 							}
-							// retransmission of the same message: same identifier, same payload
+						}
+						if strings.Contains(ev, "repeat") && last2 == nil {
+							return
+						}
+						if strings.Contains(ev, "repeat") && pendingSame {
+							// retransmission of the same message while its handshake is pending: same identifier, same payload
 							pub.Send(&packet.Publish{Header: &packet.Header{Qos: 2, Dup: strings.HasSuffix(ev, "dup")}, Topic: []byte("t/x"), Payload: []byte(last2.payload), MessageId: last2.id})
 						} else {
-							nextID++
-							e := &pubEv{qos: 2, id: nextID, payload: fmt.Sprintf("m%d", k)}
+							// a fresh handshake; "repeat" after the earlier handshake ended (completed, failed or
+							// timed out) legitimately reuses its identifier for a new message
+							e := &pubEv{qos: 2, payload: fmt.Sprintf("m%d", k)}
+							if strings.Contains(ev, "repeat") {
+								e.id = last2.id
+							} else {
+								nextID++
+								e.id = nextID
+							}
 							e.seqSent = w.Seq()
-							pub.Send(&packet.Publish{Header: &packet.Header{Qos: 2}, Topic: []byte("t/x"), Payload: []byte(e.payload), MessageId: e.id})
+							pub.Send(&packet.Publish{Header: &packet.Header{Qos: 2, Dup: strings.HasSuffix(ev, "dup")}, Topic: []byte("t/x"), Payload: []byte(e.payload), MessageId: e.id})
 							pubs = append(pubs, e)
 							last2 = e
 							if sessionAlive {
@@ -208,13 +223,18 @@ func TestC05StoreBeforeAck(t *testing.T) {
 						h.ev.faulty = faultsOn && ((p.FailLocal && has(dest, 1)) || (p.FailRem && has(dest, 2)))
 						pub.Send(&packet.PubRel{Header: &packet.Header{}, MessageId: h.ev.id})
 						h.pending = false
-						h.completed = true
+						h.completed = !h.ev.faulty // a failed forward completes nothing: the client may start over
 						expectForward, fwdPayload = sessionAlive, h.ev.payload
 						exercisedQ2 = true
 					case ev == "rel-completed":
 						h := findHS(false, true)
 						if h == nil {
 							return
+						}
+						for _, o := range handshakes {
+							if o != h && o.ev.id == h.ev.id && o.pending {
+								return // that identifier is in use by a newer handshake: this would be rel-pending
+							}
 						}
 						pub.Send(&packet.PubRel{Header: &packet.Header{}, MessageId: h.ev.id})
 					case ev == "rel-unknown":
